@@ -129,6 +129,136 @@ def first_diff(a, b, path=''):
     return '%s: %r != %r' % (path, str(a)[:80], str(b)[:80])
 
 
+
+# ---------------------------------------------------------------------------------------------------------------
+# tie of the sampler-file codec model (coq/SamplerCodec.v): dump of the real file, abstraction of the live sampler
+# ---------------------------------------------------------------------------------------------------------------
+STATIC_KEYS = ['n_dim', 'n_live', 'n_update', 'n_like_new_bound', 'enlarge_per_dim', 'n_points_min', 'split_threshold', 'n_networks', 'n_batch', 'vectorized', 'pass_dict']
+ATTR_TAG = {'n_like': 41, 'explored': 42, '_discard_exploration': 43, 'shell_n': 44, 'shell_n_sample': 45, 'shell_n_eff': 46, 'shell_log_l_min': 47, 'shell_log_l': 48,
+            'shell_log_v': 49, 'shell_n_sample_exp': 50, 'shell_end_exp': 51, 'n_update_iter': 52, 'n_like_iter': 53,
+            'rng_state': 61, 'rng_inc': 62, 'rng_has_uint32': 63, 'rng_uinteger': 64}
+DSET_TAG = {'points_t': 57, 'shell_t': 58, 'log_l_t': 59, 'blobs_t': 60}
+IDX_TAG = {'points': 54, 'log_l': 55, 'blobs': 56}
+
+
+class VTok:
+    def __init__(self):
+        self.d = {}
+
+    def get(self, v):
+        if isinstance(v, (str, bytes, np.str_, np.bytes_)):
+            key = ('s', str(v if not isinstance(v, (bytes, np.bytes_)) else v.decode()))
+        else:
+            a = np.asarray(v)
+            if a.dtype.kind in 'iub':
+                key = ('n', a.shape, a.astype(np.int64).tobytes())
+            elif a.dtype.kind == 'f':
+                key = ('f', a.shape, a.tobytes())
+            else:
+                key = (str(a.dtype), a.shape, a.tobytes())
+        return self.d.setdefault(key, 1000 + len(self.d))
+
+
+def subtree_digest(g):
+    import h5py
+    h = hashlib.sha1()
+
+    def visit(x, prefix):
+        for k in sorted(x.attrs):
+            v = x.attrs[k]
+            h.update(('A%s/%s' % (prefix, k)).encode())
+            h.update(np.asarray(v).tobytes() if not isinstance(v, (str, bytes)) else str(v).encode())
+        for k in sorted(x):
+            it = x[k]
+            if isinstance(it, h5py.Dataset):
+                a = np.array(it)
+                h.update(('D%s/%s%s%s' % (prefix, k, a.shape, a.dtype)).encode())
+                h.update(a.tobytes())
+            else:
+                visit(it, prefix + '/' + k)
+    visit(g, '')
+    return h.hexdigest()
+
+
+def dump_file(path, tok, nn_keys):
+    """the checkpoint file as (python canonical form, Coq h5 term); bound groups are opaque leaves"""
+    import h5py
+    import re as _re
+    with h5py.File(path, 'r') as f:
+        top = sorted(f.keys())
+        if 'sampler' not in f:
+            raise FailClosed('checkpoint has no sampler group')
+        g = f['sampler']
+        attrs, dsets = [], []
+        for k in g.attrs:
+            v = g.attrs[k]
+            if k in STATIC_KEYS:
+                attrs.append(('(NmI %d%%positive %d)' % (65, STATIC_KEYS.index(k)), tok.get(v)))
+            elif k.startswith('neural_network_'):
+                attrs.append(('(NmI %d%%positive %d)' % (65, len(STATIC_KEYS) + nn_keys.index(k[len('neural_network_'):])), tok.get(v)))
+            elif k in ATTR_TAG:
+                attrs.append(('(Nm %d%%positive)' % ATTR_TAG[k], tok.get(v)))
+            else:
+                raise FailClosed('unknown attribute %r in the sampler group of the checkpoint' % k)
+        for k in g:
+            if isinstance(g[k], h5py.Group):
+                raise FailClosed('unexpected group %r inside the sampler group' % k)
+            m = _re.fullmatch(r'(points|log_l|blobs)_(\d+)', k)
+            if m:
+                dsets.append(('(NmI %d%%positive %s)' % (IDX_TAG[m.group(1)], m.group(2)), tok.get(np.array(g[k]))))
+            elif k in DSET_TAG:
+                dsets.append(('(Nm %d%%positive)' % DSET_TAG[k], tok.get(np.array(g[k]))))
+            else:
+                raise FailClosed('unknown dataset %r in the sampler group of the checkpoint' % k)
+        kids = []
+        bound_tokens = []
+        i = 0
+        while 'bound_%d' % i in f:
+            t = tok.get('bound:' + subtree_digest(f['bound_%d' % i]))
+            bound_tokens.append(t)
+            kids.append(('(NmI 66%%positive %d)' % i, 'Grp [(Nm 1%%positive, %d%%positive)] [] []' % t))
+            i += 1
+        extra = [k for k in top if k != 'sampler' and not _re.fullmatch(r'bound_\d+', k)]
+        if extra or len(top) != i + 1:
+            raise FailClosed('unexpected top-level entries %s in the checkpoint' % extra)
+    canon = (tuple(sorted(attrs)), tuple(sorted(dsets)), tuple(kids))
+    term = 'Grp [] [] ((Nm 40%%positive, Grp [%s] [%s] []) :: [%s])' % (
+        '; '.join('(%s, %d%%positive)' % a for a in sorted(attrs)), '; '.join('(%s, %d%%positive)' % d for d in sorted(dsets)),
+        '; '.join('(%s, %s)' % k for k in kids))
+    return canon, term, bound_tokens
+
+
+def abs_sampler(s, tok, bound_tokens, nn_keys):
+    """the live sampler as an `sfile` term of SamplerCodec.v (values -> tokens)"""
+    def P(t):
+        return '%d%%positive' % t
+
+    def L(xs):
+        return '[' + '; '.join(xs) + ']'
+    static = [tok.get(getattr(s, k)) for k in STATIC_KEYS] + [tok.get(s.neural_network_kwargs[k]) for k in nn_keys]
+    st = s.rng.bit_generator.state
+    rng = (tok.get(str(st['state']['state'])), tok.get(str(st['state']['inc'])), tok.get(st['has_uint32']), tok.get(st['uinteger']))
+    blobs = 'None' if s.blobs is None else '(Some %s)' % L(P(tok.get(b)) for b in s.blobs)
+    blobst = 'None' if s.blobs_t is None else '(Some %s)' % P(tok.get(s.blobs_t))
+    return ('(mkSF %s %s %s %s %s %s %s %s %s %s %s %s %s %s %s %s %s %s %s %s %s %s (%s, %s, %s, %s))' % (
+        L(P(t) for t in static), P(tok.get(s.n_like)), P(tok.get(s.explored)), P(tok.get(s._discard_exploration)),
+        P(tok.get(s.shell_n)), P(tok.get(s.shell_n_sample)), P(tok.get(s.shell_n_eff)), P(tok.get(s.shell_log_l_min)), P(tok.get(s.shell_log_l)), P(tok.get(s.shell_log_v)),
+        P(tok.get(s.shell_n_sample_exp)), P(tok.get(s.shell_end_exp)), P(tok.get(s.n_update_iter)), P(tok.get(s.n_like_iter)),
+        L(P(tok.get(p)) for p in s.points), L(P(tok.get(x)) for x in s.log_l), blobs,
+        P(tok.get(s.points_t)), P(tok.get(s.shell_t)), P(tok.get(s.log_l_t)), blobst,
+        L('Grp [(Nm 1%%positive, %d%%positive)] [] []' % t for t in bound_tokens), P(rng[0]), P(rng[1]), P(rng[2]), P(rng[3])))
+
+
+CODEC_PRELUDE = """From Coq Require Import List PArith Bool Arith. Import ListNotations.
+Require Import NV.Codec NV.Codec2 NV.SamplerCodec.
+Definition sub_assoc {V} (eqv : V -> V -> bool) (a b : list (name * V)) : bool :=
+  forallb (fun kv => match assoc (fst kv) b with Some v => eqv (snd kv) v | None => false end) a && Nat.eqb (length a) (length b).
+Fixpoint h5_eqb (fuel : nat) (a b : h5) : bool :=
+  match fuel with O => false | S f => match a, b with Grp aa ad ak, Grp ba bd bk =>
+    sub_assoc Pos.eqb aa ba && sub_assoc Pos.eqb ad bd && sub_assoc (h5_eqb f) ak bk end end.
+"""
+
+
 def fingerprint(s):
     with np.errstate(all='ignore'):
         res = s.posterior(return_blobs=s.blobs is not None)
@@ -210,9 +340,19 @@ def one_config(job):
         k = 0
         done = False
         t0 = time.time()
+        vtok = VTok()
+        nn_keys = sorted((cfg.get('neural_network_kwargs') or {}).keys())
+        out['codec_cases'] = []
+        prev_term, prev_lens = None, []
         toggles = sorted(int(x) for x in rng.integers(2, 40, size=cfg.get('toggles', 0)))
         toggled = False
+        max_b = cfg.get('max_boundaries', 3000)
         while not done and k < 3000:
+            if k >= max_b:
+                # enough boundaries examined: finish in one call (still part of the sliced history)
+                with np.errstate(all='ignore'):
+                    done = s.run(**run_args(cfg))
+                break
             ex0, nb0 = bool(s.explored), len(s.bounds)
             stride = 1 if rng.random() < 0.8 else int(rng.integers(1, 3 * cfg['n_batch']))
             with np.errstate(all='ignore'):
@@ -226,6 +366,25 @@ def one_config(job):
                 break
             snap = os.path.join(d, 'b_%d.hdf5' % k)
             shutil.copyfile(path, snap)
+            # the incremental protocol must have left exactly the file a full write of the current state gives
+            try:
+                scratch = os.path.join(d, 'full.hdf5')
+                s.write(scratch, overwrite=True)
+                cF, tF, _ = dump_file(snap, vtok, nn_keys)
+                cW, tW, btoks = dump_file(scratch, vtok, nn_keys)
+                out['full_write_compared'] = out.get('full_write_compared', 0) + 1
+                if cF != cW:
+                    diff = [a for a, b in zip(cF[0] + cF[1], cW[0] + cW[1]) if a != b][:1] or ['different bound group or number of entries']
+                    out['fails'].append(('after batch boundary %d (%s) the checkpoint differs from a full write of the current state (first difference at %s)' % (k, phase, diff[0] if isinstance(diff[0], str) else diff[0][0]), k))
+                lens = [len(p) for p in s.points]
+                grew = [i for i, (a, b) in enumerate(zip(prev_lens, lens)) if a != b] if len(prev_lens) == len(lens) else None
+                pure = (stride == 1 and prev_term is not None and grew is not None and len(grew) <= 1 and len(s.bounds) == nb0 and bool(s.explored) == ex0)
+                if len(out['codec_cases']) < 40 and (k % 3 == 0 or phase in ('after-bound', 'end-exploration', 'first')):
+                    sh = grew[0] if (pure and grew) else (len(s.bounds) - 1)
+                    out['codec_cases'].append(dict(k=k, phase=phase, abs=abs_sampler(s, vtok, btoks, nn_keys), full=tW, cur=tF, prev=prev_term if pure else None, shell=sh))
+                prev_term, prev_lens = tF, lens
+            except FailClosed as e:
+                out['fails'].append((str(e), k))
             try:
                 s2, _ = make_sampler(nautilus, cfg, snap)
                 ca, cb = canon_sampler(s), canon_sampler(s2)
@@ -276,7 +435,7 @@ def one_config(job):
 
 
 def configs(tier, seed):
-    base = dict(family='gauss', n_dim=2, n_live=60, n_batch=20, n_update=20, n_networks=0, blob='none', seed=7 + seed % 1000, n_shell=10, n_eff=250,
+    base = dict(family='gauss', n_dim=2, n_live=60, n_batch=20, n_update=20, n_networks=0, blob='none', seed=7 + seed % 1000, n_shell=10, n_eff=250, max_boundaries=110 if tier == 'quick' else 3000,
                 neural_network_kwargs=dict(hidden_layer_sizes=(12, 6), max_iter=100))
     cs = [dict(base), dict(base, n_networks=1, blob='float', n_live=80, family='periodic', periodic=[0], n_dim=3, discard_at_end=True),
           dict(base, blob='two', vectorized=True, n_batch=7, n_live=40, n_update=10, family='twomode'),
@@ -310,6 +469,49 @@ def main(run: Run, audit):
             fails.append((cfg, 'resume at batch boundary %d and run to the end: %s, uninterrupted run: %s' % (k, fp[:100], (ref or '')[:100]), k))
         elif not once:
             fails.append((cfg, 'continuation from batch boundary %d evaluated points again (likelihood calls != new n_like)' % k, k))
+    # sampler-file codec model inside Coq: model writer = real full write; model update of the previous file = real file
+    from common import coq_eval
+    import re as _re
+    codec = [(o['cfg'], c) for o in outs for c in o.get('codec_cases', [])]
+    n_codec = 0
+    broken = []
+
+    def ev(sh):
+        if not sh:
+            return []
+        defs = []
+        for i, (_, c) in sh:
+            defs.append('Definition a%d := %s.\nDefinition f%d : h5 := %s.\nDefinition c%d : h5 := %s.' % (i, c['abs'], i, c['full'], i, c['cur']))
+            chk = 'h5_eqb 6 (write_file a%d) f%d' % (i, i)
+            if c['prev'] is not None:
+                defs.append('Definition p%d : h5 := %s.' % (i, c['prev']))
+                chk += '; h5_eqb 6 (upd_file p%d a%d %d) c%d' % (i, i, c['shell'], i)
+            defs.append('Definition chk%d := [%s].' % (i, chk))
+        body = CODEC_PRELUDE + '\n'.join(defs) + '\nEval vm_compute in [%s].\n' % '; '.join('(%d%%nat, chk%d)' % (i, i) for i, _ in sh)
+        rc, o_ = coq_eval(body, 'cases_C05', timeout=900)
+        if rc != 0:
+            return [('coq', o_[-500:])]
+        return [(int(m.group(1)), [x.strip() == 'true' for x in m.group(2).split(';')]) for m in _re.finditer(r'\(\s*(\d+)\s*,\s*\[([^\]]*)\]\s*\)', o_.replace('\n', ' ').replace('%nat', ''))]
+    from concurrent.futures import ThreadPoolExecutor
+    idx = list(enumerate(codec))
+    with ThreadPoolExecutor(8) as ex:
+        cres = list(ex.map(ev, [idx[i::8] for i in range(8)]))
+    seen = set()
+    for rr in cres:
+        for item in rr:
+            if item[0] == 'coq':
+                broken.append(item[1])
+                continue
+            i, bits = item
+            seen.add(i)
+            n_codec += len(bits)
+            if not all(bits):
+                cfg_i, c = codec[i]
+                what = 'the model writer (SamplerCodec.write_file) of the live state differs from the real full write' if not bits[0] else \
+                       'write_shell_update applied to the previous file differs from the model update (SamplerCodec.upd_file) of that file'
+                broken.append('batch boundary %d (%s): %s' % (c['k'], c['phase'], what))
+    if len(seen) != len(codec) and not broken:
+        broken.append('no Coq verdict for %d sampler-codec cases' % (len(codec) - len(seen)))
     for o in outs:
         if o.get('keepdir'):
             shutil.rmtree(o['keepdir'], ignore_errors=True)
@@ -320,7 +522,7 @@ def main(run: Run, audit):
     run.cov.update(evaluations=sum(o['boundaries'] for o in outs) + n_cont, distinct_nontrivial=sum(o['compared'] for o in outs),
                    rule='every batch boundary of every configured run: fresh Sampler(resume=True) from a copy of the file, canonical deep comparison with the live object (exhaustive per run); '
                         'true continuations to the end from boundaries of every phase (quick) or all boundaries (thorough); the stepping run uses mixed run(n_like_max) strides',
-                   exhaustive=True, configurations=len(cfgs), boundaries=sum(o['boundaries'] for o in outs), boundary_phases=phases, continuations=n_cont,
+                   exhaustive=True, configurations=len(cfgs), boundaries=sum(o['boundaries'] for o in outs), boundary_phases=phases, continuations=n_cont, full_write_comparisons=sum(o.get('full_write_compared', 0) for o in outs), sampler_codec_model_checks=n_codec,
                    direct_predicate_failures=len(fails),
                    samples=[dict(config={k: v for k, v in outs[0]['cfg'].items() if k != 'neural_network_kwargs'}, reference=outs[0].get('ref'), boundaries=outs[0]['boundaries'])])
     if fails:
@@ -329,6 +531,9 @@ def main(run: Run, audit):
         run.violation('C05 %s: %s' % ('direct predicate fails on the implementation' if found else 'comparison could not be completed (fail closed)', what),
                       dict(kind='direct' if found else 'correspondence', config=cfg, boundary=k, what=what, n_failures=len(fails),
                            broken=None if found else 'resume comparison (harness/c05.py canonical form)'), found, key='C05:' + what[:30])
+    elif broken:
+        run.violation('C05: correspondence of the sampler-file codec model with the implementation broken (no direct predicate fails): ' + broken[0],
+                      dict(kind='correspondence', broken='sampler.py write / write_shell_update ~ SamplerCodec.write_file / upd_file', what=broken[:5]), False)
 
 
 def replay(path):
